@@ -48,7 +48,7 @@ def eval_cover(ctx):
     def dec(name):
         def run():
             if name == "string":
-                for r, lim, pz, u8 in stringx.string_cases():
+                for r, lim, pz, u8 in stringx.string_cases(ctx):
                     out = stringx.evaluate(ctx, "string", r, lim, pz, u8 is not False, padded=(u8 != "unpadded"))
                     if "panic" in out:
                         return "string(bytes left=%d, limit=%s, first NUL at %s): %s" % (r, lim, pz, out["panic"])
